@@ -11,7 +11,8 @@ A case (JSON):
   builtin 'blt' (redirect builtin_pipelines_dir to T/blt) | None (the real {repo}/pypyr/pipelines)
   subdir  config.pipelines_subdir ('pipelines')
   pre_syspath  [absolute dirs ($T/...) appended to sys.path before pypyr runs]
-  invoke  {name, loader, py_dir}
+  invoke  {name, loader, py_dir}       more_invokes [further root runs in the SAME process]
+          a call may carry raise: false (pype raiseError: false)
   tags    [feature tags]
 cwd is always T/cwd.
 """
@@ -58,6 +59,8 @@ def call_to_yaml(c, root):
         d['parent'] = sub(c['parent'], root)
     if 'pydir' in c:
         d['pyDir'] = sub(c['pydir'], root)
+    if 'raise' in c:
+        d['raiseError'] = c['raise']
     return {'name': 'pypyr.steps.pype', 'in': {'pype': d}}
 
 
@@ -118,8 +121,9 @@ def run_case(case):
         spec = {'builtin': (root + '/' + case['builtin']) if case.get('builtin') else None,
                 'subdir': case.get('subdir'),
                 'pre_syspath': [sub(d, root) for d in case.get('pre_syspath', [])],
-                'invoke': {'name': sub(inv['name'], root), 'loader': inv.get('loader'),
-                           'py_dir': sub(inv.get('py_dir'), root)}}
+                'invokes': [{'name': sub(i['name'], root), 'loader': i.get('loader'),
+                             'py_dir': sub(i.get('py_dir'), root)}
+                            for i in [inv] + list(case.get('more_invokes', []))]}
         env = {'PATH': os.environ.get('PATH', '/usr/bin:/bin'),
                'PYTHONPATH': repo + os.pathsep + str(HARNESS),
                'PYTHONHASHSEED': '0', 'PYTHONDONTWRITEBYTECODE': '1', 'HOME': root,
@@ -206,7 +210,8 @@ def coq_call(tab, c):
     T = lambda s: sub(s, CT)   # noqa
     res = 'None' if 'resolve' not in c else f'(Some {pv.coq_bool(bool(c["resolve"]))})'
     pyd = 'None' if c.get('pydir') is None else f'(Some {tab.ref(T(c["pydir"]))})'
-    return (f'(mkcall {tab.ref(T(c["name"]))} (mkopts {coq_optkey(tab, c, "loader")} {res} '
+    mk = 'mkcall_sw' if ('raise' in c and not c['raise']) else 'mkcall'
+    return (f'({mk} {tab.ref(T(c["name"]))} (mkopts {coq_optkey(tab, c, "loader")} {res} '
             f'{coq_optkey(tab, c, "parent", T)} {pyd}))')
 
 
@@ -267,10 +272,12 @@ def coq_world(tab, case):
 
 
 def coq_invoke(tab, case):
-    inv = case['invoke']
-    ld = pv.coq_opt(inv.get('loader'), tab.ref)
-    pd = pv.coq_opt(sub(inv.get('py_dir'), CT), tab.ref)
-    return f'{ld} {pd} {tab.ref(sub(inv["name"], CT))}'
+    out = []
+    for inv in [case['invoke']] + list(case.get('more_invokes', [])):
+        ld = pv.coq_opt(inv.get('loader'), tab.ref)
+        pd = pv.coq_opt(sub(inv.get('py_dir'), CT), tab.ref)
+        out.append(f'({ld}, {pd}, {tab.ref(sub(inv["name"], CT))})')
+    return pv.coq_list(out)
 
 
 def coq_events(tab, ev):
